@@ -172,8 +172,8 @@ type run struct {
 	ex *timed.Executor
 	te *timed.TaskExecutor[int]
 
-	items   []*item
-	itemsMu sync.RWMutex // scripted runs append while nobody else reads; random runs preallocate
+	items  []*item                 // owned by the driver goroutine (scripted runs append, random runs preallocate)
+	itemsV atomic.Pointer[[]*item] // published copy: readers never park on a lock between a delivery decision and "started"
 
 	mu      sync.Mutex
 	cancels []cancelRec
@@ -239,17 +239,22 @@ func (r *run) newItem(idx, id int, offUs int64, gated bool) *item {
 }
 
 func (r *run) appendItem(id int, offUs int64, gated bool) *item {
-	r.itemsMu.Lock()
 	it := r.newItem(len(r.items), id, offUs, gated)
 	r.items = append(r.items, it)
-	r.itemsMu.Unlock()
+	r.publishItems()
 	return it
 }
 
+func (r *run) publishItems() {
+	cp := append([]*item(nil), r.items...)
+	r.itemsV.Store(&cp)
+}
+
 func (r *run) allItems() []*item {
-	r.itemsMu.RLock()
-	defer r.itemsMu.RUnlock()
-	return r.items[:len(r.items):len(r.items)]
+	if p := r.itemsV.Load(); p != nil {
+		return *p
+	}
+	return nil
 }
 
 // startPollers starts n pollers and returns when each of them is running (a goroutine that
@@ -444,14 +449,15 @@ type obs struct {
 	parked     int    // of these: parked (sync primitive, channel, select)
 	pollCond   int    // inside Queue.Poll in sync.Cond.Wait (waiting for an element)
 	pollSelect int    // inside Queue.Poll parked in select (holding an element, waiting for timer/cancel/shutdown)
-	inCallback int    // parked inside a harness callback (gate) or the TaskExecutor wrapper
+	pollOther  int    // inside Queue.Poll parked on one of the queue's mutexes
+	inCallback int    // parked inside a harness callback (gate)
 	clients    int
 	shutdown   int // 0: no Shutdown goroutine, 1: parked in WaitGroup.Wait inside Executor.Shutdown, 2: otherwise alive
 	sig        string
 }
 
 func (o obs) allParked() bool { return o.parked == o.nWorkers }
-func (o obs) allInPoll() bool { return o.pollCond+o.pollSelect == o.nWorkers }
+func (o obs) allInPoll() bool { return o.pollCond+o.pollSelect+o.pollOther == o.nWorkers }
 func (o obs) allIdle() bool   { return o.pollCond == o.nWorkers }
 
 func isPollFrame(f string) bool {
@@ -493,16 +499,22 @@ func (r *run) observe() obs {
 		case g.Has("timed.(*Executor).startBackgroundWorkers") || g.Has("main.(*run).poller"):
 			o.nWorkers++
 			fmt.Fprintf(&sig, "%d:%s;", g.ID, g.State)
-			if !g.Parked() {
-				continue
-			}
-			o.parked++
+			// A worker counts as parked only where no delivery decision can be in flight: anywhere inside Queue.Poll
+			// (the decision is the return from Poll) or inside the harness callback (already counted as started).
+			// A worker parked elsewhere - e.g. on the TaskExecutor mutex between Poll and the callback - does not.
 			switch {
-			case hasPoll(g) && !g.Has("main.(*run).deliver") && g.State == "sync.Cond.Wait":
+			case !g.Parked():
+			case hasPoll(g) && g.State == "sync.Cond.Wait":
+				o.parked++
 				o.pollCond++
-			case hasPoll(g) && !g.Has("main.(*run).deliver") && g.State == "select":
+			case hasPoll(g) && (g.State == "select" || g.State == "chan receive"):
+				o.parked++
 				o.pollSelect++
-			default:
+			case hasPoll(g):
+				o.parked++
+				o.pollOther++
+			case g.Has("main.(*run).deliver"):
+				o.parked++
 				o.inCallback++
 			}
 		case g.Has("main.(*run).doShutdown"):
